@@ -109,6 +109,17 @@ def signature(ev, exec_lines, idx, r=None):
         before = exec_lines[:idx]
         ctx = 'after-failure' if any('"e":"x_failure"' in ln for ln in before) else \
               'after-delay' if any('"e":"x_dont_' in ln for ln in before) else 'plain'
+        # was a delay requested earlier for one of the atoms of this event? (part of the identity of the failing history)
+        ids = {a[0] for a in ev.get('atoms', []) if isinstance(a, list) and a}
+        delayed = set()
+        for ln in before:
+            if '"e":"x_dont_' in ln:
+                try:
+                    delayed |= {r[0] for r in json.loads(ln).get('req', [])}
+                except ValueError:
+                    pass
+        if ctx == 'after-failure' and ids & delayed:
+            ctx += ':delayed'
         return 'exec:%s:%s:%s' % (ev['e'], contract, ctx)
     fam = re.sub(r'[_\d]+$', '', ev.get('name', '?'))
     return 'plan:%s:%s:%s' % (ev.get('e', '?'), contract, fam)
